@@ -161,6 +161,10 @@ package spdxexp
 //@ pred pend(e *expressionStream, orig string) = 0 <= e.index && e.index < len(e.expression) && 0 <= e.index + e.removed && e.index + e.removed + 1 <= len(orig) && e.expression[e.index:] == "+" + orig[e.index + e.removed + 1:]
 //@ pred rel(e *expressionStream, orig string) = syncd(e, orig) || pend(e, orig)
 
+// Operators (C05): the first of WITH AND OR ( ) : + that prefixes the rest of the text; '+' must not follow a space.
+//@ pred firstOp(r string) = ite(HasPrefix(r, "WITH"), "WITH", ite(HasPrefix(r, "AND"), "AND", ite(HasPrefix(r, "OR"), "OR", ite(HasPrefix(r, "("), "(", ite(HasPrefix(r, ")"), ")", ite(HasPrefix(r, ":"), ":", ite(HasPrefix(r, "+"), "+", "")))))))
+//@ pred spaceBefore(e *expressionStream) = e.index >= 1 && e.expression[e.index - 1:e.index] == " "
+
 //@ func scan
 //@   modifies nothing
 //@   ghostlet orig = expression
@@ -191,10 +195,15 @@ package spdxexp
 //@   ensures[C03] !isErr(old(exp.err)) && result != nil ==> !isErr(exp.err)
 //@   ensures[C05,C15] result != nil ==> syncd(exp, orig) && exp.index >= old(exp.index)
 //@   ensures[C05,C15] result == nil && !isErr(exp.err) ==> syncd(exp, orig)
+//@   ensures[C05] result != nil ==> result.role == 0 && result.value != "" && result.value == firstOp(old(exp.expression[exp.index:])) && exp.index == old(exp.index) + len(result.value)
+//@   ensures[C05] result == nil && !isErr(exp.err) ==> firstOp(old(exp.expression[exp.index:])) == ""
+//@   ensures[C05] isErr(exp.err) <==> (firstOp(old(exp.expression[exp.index:])) == "+" && old(spaceBefore(exp)))
+//@   ensures[C05] isErr(exp.err) ==> exp.index == old(exp.index)
 //@   loop 0:
 //@     invariant[C03] okExp(exp) && exp.err == old(exp.err)
 //@     invariant[C03] len(op) == 0 && exp.index == old(exp.index)
-//@     invariant[C05,C15] len(possibilities) == 7 && possibilities[6] == "+" && forall k :: 0 <= k && k < $i ==> !HasPrefix(exp.expression[exp.index:], possibilities[k])
+//@     invariant[C05,C15] len(possibilities) == 7 && possibilities[0] == "WITH" && possibilities[1] == "AND" && possibilities[2] == "OR" && possibilities[3] == "(" && possibilities[4] == ")" && possibilities[5] == ":" && possibilities[6] == "+"
+//@     invariant[C05,C15] $i <= 7 && forall k :: 0 <= k && k < $i ==> !HasPrefix(exp.expression[exp.index:], possibilities[k])
 //@ end
 
 //@ func (*expressionStream).readID
@@ -249,6 +258,10 @@ package spdxexp
 //@   ensures[C03] result == nil ==> exp.expression == old(exp.expression) && exp.index == old(exp.index) && exp.removed == old(exp.removed)
 //@   ensures[C05,C15] result != nil ==> rel(exp, orig) && exp.index >= old(exp.index) - 9
 //@   ensures[C05,C08,C09] result != nil <==> validId(license, old(exp.index < len(exp.expression) && exp.expression[exp.index:exp.index + 1] == "+"))
+//@   ensures[C05,C08,C09] result != nil ==> result.role == normRole(license, old(npAt(exp))) && result.value == normVal(license, old(npAt(exp)))
+//@   ensures[C05,C08] result != nil && normCase(license, old(npAt(exp))) != 3 && normCase(license, old(npAt(exp))) != 4 ==> exp.index == old(exp.index) && exp.expression == old(exp.expression) && exp.removed == old(exp.removed)
+//@   ensures[C05,C08] result != nil && normCase(license, old(npAt(exp))) == 3 ==> exp.index == old(exp.index) + 1 && exp.expression == old(exp.expression) && exp.removed == old(exp.removed)
+//@   ensures[C05,C08] result != nil && normCase(license, old(npAt(exp))) == 4 ==> exp.index == old(exp.index) - 9 && exp.removed == old(exp.removed) + 8 && pend(exp, orig)
 //@   ensures[C09,C06] result != nil ==> (result.role == 3 || result.role == 4) && (occc(ActiveSeq(), ActiveLen(), result.value) || occc(ExceptionSeq(), ExceptionLen(), result.value) || occc(DeprecatedSeq(), DeprecatedLen(), result.value))
 //@ end
 
@@ -256,12 +269,14 @@ package spdxexp
 //@   modifies nothing
 //@   ensures[C05,C08,C09] result != nil <==> inAE(license)
 //@   ensures[C09,C06] result != nil ==> EqualFold(result.value, license) && ((result.role == 3 && occc(ActiveSeq(), ActiveLen(), result.value)) || (result.role == 4 && occc(ExceptionSeq(), ExceptionLen(), result.value)))
+//@   ensures[C05,C08,C09] result != nil ==> result.role == ite(inAct(license), 3, 4) && result.value == ite(inAct(license), canonAct(license), canonExc(license))
 //@ end
 
 //@ func deprecatedLicenseLookup
 //@   modifies nothing
 //@   ensures[C05,C08,C09] result != nil <==> inDep(license)
 //@   ensures[C09,C06] result != nil ==> EqualFold(result.value, license) && result.role == 3 && occc(DeprecatedSeq(), DeprecatedLen(), result.value)
+//@   ensures[C05,C08,C09] result != nil ==> result.value == canonDep(license)
 //@ end
 
 // ---------------------------------------------------------------------------
@@ -275,16 +290,34 @@ package spdxexp
 // membership in the shipped lists, and the id classification of C05 written from the property text: a lexeme is a
 // valid id iff it is listed (case-insensitively) on the active, exception or deprecated list, or is a listed
 // (active / exception) id carrying -only or -or-later, or is followed by '+' and its -or-later form is listed
+// no two entries of one list are equal up to letter case: a table hypothesis, decided by the ground evaluator
+// (foldUnique) on the literals of the current tree on every run of the checks that use it
+//@ axiom forall i int, j int {ActiveSeq()[i], ActiveSeq()[j]} :: 0 <= i && i < ActiveLen() && 0 <= j && j < ActiveLen() && EqualFold(ActiveSeq()[i], ActiveSeq()[j]) ==> i == j
+//@ axiom forall i int, j int {ExceptionSeq()[i], ExceptionSeq()[j]} :: 0 <= i && i < ExceptionLen() && 0 <= j && j < ExceptionLen() && EqualFold(ExceptionSeq()[i], ExceptionSeq()[j]) ==> i == j
+//@ axiom forall i int, j int {DeprecatedSeq()[i], DeprecatedSeq()[j]} :: 0 <= i && i < DeprecatedLen() && 0 <= j && j < DeprecatedLen() && EqualFold(DeprecatedSeq()[i], DeprecatedSeq()[j]) ==> i == j
+// the canonical (list) spelling of a listed id
+//@ pred canonAct(id string) = ActiveSeq()[foldw(ActiveSeq(), ActiveLen(), id)]
+//@ pred canonExc(id string) = ExceptionSeq()[foldw(ExceptionSeq(), ExceptionLen(), id)]
+//@ pred canonDep(id string) = DeprecatedSeq()[foldw(DeprecatedSeq(), DeprecatedLen(), id)]
 //@ pred inAct(id string) = foldc(ActiveSeq(), ActiveLen(), id)
 //@ pred inExcp(id string) = foldc(ExceptionSeq(), ExceptionLen(), id)
 //@ pred inDep(id string) = foldc(DeprecatedSeq(), DeprecatedLen(), id)
 //@ pred inAE(id string) = inAct(id) || inExcp(id)
+// which listed id a lexeme denotes (documented normalisation: the listed id itself; X-only -> X when X-only is not
+// listed; X followed by '+' -> X-or-later when that is listed; X-or-later -> X with '+' when X-or-later is not listed;
+// last, a deprecated id), and which token results
+//@ pred normCase(l string, np bool) = ite(inAE(l), 1, ite(HasSuffix(l, "-only") && inAE(l[0:len(l) - 5]), 2, ite(np && inAE(l + "-or-later"), 3, ite(HasSuffix(l, "-or-later") && inAE(l[0:len(l) - 9]), 4, ite(inDep(l), 5, 0)))))
+//@ pred normKey(l string, np bool) = ite(normCase(l, np) == 2, l[0:len(l) - 5], ite(normCase(l, np) == 3, l + "-or-later", ite(normCase(l, np) == 4, l[0:len(l) - 9], l)))
+//@ pred normRole(l string, np bool) = ite(normCase(l, np) == 5, 3, ite(inAct(normKey(l, np)), 3, 4))
+//@ pred normVal(l string, np bool) = ite(normCase(l, np) == 5, canonDep(l), ite(inAct(normKey(l, np)), canonAct(normKey(l, np)), canonExc(normKey(l, np))))
+//@ pred npAt(e *expressionStream) = e.index < len(e.expression) && e.expression[e.index:e.index + 1] == "+"
 //@ pred validId(l string, nextPlus bool) = inAE(l) || (HasSuffix(l, "-only") && inAE(l[0:len(l) - 5])) || (nextPlus && inAE(l + "-or-later")) || (HasSuffix(l, "-or-later") && inAE(l[0:len(l) - 9])) || inDep(l)
 
 //@ func inLicenseList
 //@   modifies nothing
 //@   ensures[C05,C08,C09] result0 <==> foldc(elems(licenses), len(licenses), id)
 //@   ensures[C09,C06] result0 ==> occc(elems(licenses), len(licenses), result1) && EqualFold(result1, id)
+//@   ensures[C05,C09] result0 ==> (exists k :: 0 <= k && k < len(licenses) && result1 == licenses[k] && EqualFold(licenses[k], id))
 //@   ensures[C09] result0 <==> (exists k :: 0 <= k && k < len(licenses) && EqualFold(licenses[k], id))
 //@   ensures[C09] result0 ==> (exists k :: 0 <= k && k < len(licenses) && EqualFold(licenses[k], id) && result1 == licenses[k] && forall j :: 0 <= j && j < k ==> !EqualFold(licenses[j], id))
 //@   ensures[C09] !result0 ==> result1 == id
@@ -339,6 +372,7 @@ package spdxexp
 //@ pred matchT(a Tree, b Tree) = licMatch(a, b) || refMatch(a, b) || (isTLic(a) && isTLic(b) && excOK(a, b) && EqualFold(reconT(a), reconT(b)))
 //@ axiom forall x string {EqualFold(x, x)} :: EqualFold(x, x)
 //@ axiom forall x string, y string {EqualFold(x, y)} :: EqualFold(x, y) ==> EqualFold(y, x)
+//@ axiom forall x string, y string, z string {EqualFold(x, y), EqualFold(y, z)} :: EqualFold(x, y) && EqualFold(y, z) ==> EqualFold(x, z)
 
 // Properties of the matching rule named in C02, proved from the definitions above (pure SMT, no code involved).
 //@ lemma[C02] licMatchSymmetric: forall a Tree, b Tree :: licMatch(a, b) <==> licMatch(b, a)
